@@ -6,10 +6,13 @@ T: KernelDG.is_read / is_written / is_memstore / is_memload / _update_reg_change
    source on every run (tools/gen_deps.py -> Gen/DepsGen.v); PropsGen/C03deps.v proves them equal to the hand model on every input of
    the model's types and restates the scan theorems for them; the regenerated text is cross-checked against the Python methods on
    dumps of the real objects of this run's kernels (harness/deps_gen.py).
+   ISASemantics.assign_src_dst and its helpers (role assignment) and KernelDG.create_DG (graph construction) are regenerated too
+   (tools/gen_roles.py -> Gen/RolesGen.v, Gen/DgGen.v; PropsGen/C03roles.v, C03dg.v; harness/roles_gen.py).
 Search: edge set vs an independent architectural read-after-write relation computed from the generator's roles."""
 import depcheck
 import deps
 import deps_gen
+import roles_gen
 
 FINISH = dict(level="proof",
               rule="synthetic: random ISA semantic DB (1-4 operands, random source/destination roles, hidden CF/ZF operands, zero idioms, "
@@ -22,9 +25,11 @@ def run(ctx):
     depcheck.prepare(ctx, "Props/C03.v")
     cases = []
     items = []          # real objects for the translator cross-check (deps_gen)
+    ritems = []         # ... and for the tie of role assignment / create_DG (roles_gen)
     for case, kernel, dg, isa, gl, pipe in depcheck.synthetic(ctx, ctx.n(160, 3000)):
         ctx.count()
         items.append((kernel, dg, isa, pipe.sem, "synthetic kernel %r (flag deps %s)" % (case["text"][:200], case["flagdeps"])))
+        ritems.append((pipe, kernel, dg, isa, items[-1][-1]))
         if case["edges"]:
             ctx.nontriv((case["text"], case["flagdeps"], case["db"]["isa_yaml"]))
         depcheck.raw_oracle(ctx, case, isa, gl)
@@ -41,8 +46,10 @@ def run(ctx):
                 ctx.violation("edge-not-forward", "%s: edge %d -> %d" % (case["origin"], u, v), {"origin": case["origin"]})
         real.append(case)
         items.append((kernel, dg, isa, pipe.sem, case["origin"]))
+        ritems.append((pipe, kernel, dg, isa, case["origin"]))
     depcheck.run_shards(ctx, real, "real", size=2)
     deps_gen.run(ctx, items, ["PropsGen/C03deps.v"])
+    roles_gen.run(ctx, ritems)
     vocabulary(ctx)
 
 
